@@ -27,9 +27,10 @@ from .. import sched
 PROP = "C16"
 THEOREMS = ["C16_checker_decides", "C16_stage_bracket", "C16_middleware", "C16_middleware_cache",
             "C16_multi", "C16_multi_stack", "C16_field_once_blocking", "C16_interleave",
-            "C16_machine_linearises", "C16_field_once_deferred", "C16_apollo"]
+            "C16_machine_linearises", "C16_field_once_deferred", "C16_apollo",
+            "C16_lift_preserves", "C16_argerr_erase", "C16_field_once_deferred_full", "C16_stage_and_fields"]
 AXIOMS_OK = []
-RUN_MODULE = "Run.C16run Spec.TraceSpec Exec.TraceModel Exec.RuntimeMachine Exec.TraceDeferred"
+RUN_MODULE = "Run.C16run Spec.TraceSpec Exec.TraceModel Exec.RuntimeMachine Exec.TraceDeferred Exec.TraceLift Exec.TraceRequest"
 AGREE = "agree_C16"
 CASE_TYPE = "case_C16"
 SHARD = 40
@@ -411,7 +412,7 @@ _OUT = {"val": "OVal", "null": "ONull", "err": "OErr", "argerr": "OArgErr",
         # returned, no sub-field is resolved -- the same field word as a null
         "cerr": "ONull"}
 _CLASS = {"syntax": "OCSyntax", "validation": "OCValidation", "unknown_op": "OCUnknownOp",
-          "var_error": "OCVarError"}
+          "var_error": "OCVarError", "dir_error": "OCDirective"}
 
 
 def _cevent(enc, e):
@@ -450,26 +451,32 @@ def mw_awaits(case):
 
 
 def machine_applies(case):
-    """the run can be replayed on the executor machine of C08/C09: a deferred
-    runtime, no argument errors (the machine has no such outcome), and -- under
-    asyncio -- no awaiting middlewares (they turn every field into a coroutine)"""
-    if case["kind"] != "exec" or case["config"] not in DEFERRED_CFG or case.get("novalidate"):
+    """the run can be replayed on the composed deferred model: a deferred runtime
+    and -- under asyncio -- no awaiting middlewares (they turn every field,
+    also the synchronously resolved ones, into a coroutine the controller does
+    not gate)"""
+    if case["kind"] != "exec" or case["config"] not in DEFERRED_CFG:
         return False
     if case["config"] == "asyncio" and case["n"] > 0 and case.get("mw_async"):
         return False
     return True
 
 
-def _cprog(enc, case):
+def _cprog(enc, case, argerr):
     deferred = set(case["deferred"])
 
     def flds(parent_type, path, sel):
         out = "FNil"
-        for alias, name, _arg, sub in reversed(sel):
+        for alias, name, arg, sub in reversed(sel):
             key = alias or name
             p = path + [key]
             tname, is_list = FIELDS[parent_type][name]
             w = case["world"].get(_pkey(p), "val")
+            if arg is not None and not str(arg).lstrip("-").isdigit():
+                # argument coercion fails: for the executor a resolver that fails at once, never submitted
+                argerr.append(p)
+                out = "(FCons (Fld %d None false BErr) %s)" % (enc.elem(key), out)
+                continue
             if w == "err":
                 body = "BErr"
             elif w in ("null", "cerr"):
@@ -493,10 +500,12 @@ def _cprog(enc, case):
 
 
 def _creq(enc, case):
-    prog = "(Some %s)" % _cprog(enc, case) if machine_applies(case) else "None"
-    return "(mkReq %d%%nat %d%%nat %s %s %s %s %s %s)" % (
+    argerr = []
+    prog = "(Some %s)" % _cprog(enc, case, argerr) if machine_applies(case) else "None"
+    return "(mkReq %d%%nat %d%%nat %s %s %s %s %s [%s] %s)" % (
         case["k"], case["n"], "true" if case["as_text"] else "false", oclass(case),
         "true" if mw_awaits(case) else "false", _ctree(enc, build_tree(case)), prog,
+        "; ".join(enc.path(p) for p in argerr),
         "true" if case["config"] == "asyncio" else "false")
 
 
@@ -548,6 +557,11 @@ FAILING = [
     ("var_error", {"doc": "query Q($v: Int!) { x(i: $v) }", "variables": {}}),
     ("var_error", {"doc": "query Q($v: Int!) { x(i: $v) }", "variables": {"v": "s"}}),
     ("var_error", {"doc": "query Q($v: Int!) { x(i: $v) }", "variables": {"v": None}}),
+    # @skip / @include arguments of the root selection that cannot be coerced (nullable variable with a
+    # default, explicit null supplied): the request is aborted before the execution stage starts
+    ("dir_error", {"doc": "query Q($s: Boolean = true) { a @skip(if: $s) }", "variables": {"s": None}}),
+    ("dir_error", {"doc": "query Q($s: Boolean = true) { a o @include(if: $s) { b } }", "variables": {"s": None}}),
+    ("dir_error", {"doc": "mutation M($s: Boolean = false) { a @skip(if: $s) b }", "variables": {"s": None}}),
 ]
 
 SEL_NESTED = [[None, "a", None, []], [None, "o", None, [[None, "a", None, []], [None, "b", None, []]]],
